@@ -63,30 +63,30 @@ def key_class(el, key):
 
 # ---------------------------------------------------------------------------------------------- type dictionaries
 @st.composite
-def line_type(draw):
+def line_type(draw, force=()):
     d = {"c_nf_per_km": draw(q(0, 400, 1)), "r_ohm_per_km": draw(q(0.01, 1.2, 4)), "x_ohm_per_km": draw(q(0.02, 0.5, 4)),
          "max_i_ka": draw(q(0.05, 2.0, 3))}
     if draw(st.booleans()):
         d["type"] = draw(st.sampled_from(["cs", "ol"]))
     if draw(st.booleans()):
         d["q_mm2"] = draw(st.sampled_from([50, 95, 240, 490.5]))
-    if draw(st.integers(0, 2)) > 0:
+    if draw(st.integers(0, 2)) > 0 or "alpha" in force:
         d["alpha"] = draw(st.sampled_from([4.03e-3, 3.93e-3, 0.0, 1e-3]))
     if draw(st.integers(0, 3)) == 0:
         d["voltage_rating"] = draw(st.sampled_from(["LV", "MV", "HV"]))
     if draw(st.integers(0, 2)) == 0:
         d["g_us_per_km"] = draw(q(0, 5, 2))
-    if draw(st.integers(0, 2)) == 0:
+    if draw(st.booleans()) or "zero" in force:
         d["r0_ohm_per_km"] = draw(q(0.05, 3, 4))
         d["x0_ohm_per_km"] = draw(q(0.05, 2, 4))
         d["c0_nf_per_km"] = draw(q(0, 500, 1))
-    if draw(st.integers(0, 3)) == 0:
+    if draw(st.integers(0, 3)) == 0 or "endtemp" in force:
         d["endtemp_degree"] = draw(st.sampled_from([70.0, 80.0, 160.0, 250.0]))
     return d
 
 
 @st.composite
-def line_dc_type(draw):
+def line_dc_type(draw, force=()):
     d = {"r_ohm_per_km": draw(q(0.005, 0.5, 4)), "max_i_ka": draw(q(0.2, 3.0, 3))}
     if draw(st.booleans()):
         d["type"] = draw(st.sampled_from(["cs", "ol"]))
@@ -105,14 +105,15 @@ def tap_set(draw, sides, prefix="tap_"):
     lo, hi = draw(st.integers(1, 9)), draw(st.integers(1, 9))
     ctype = draw(st.sampled_from(["Ratio", "Ratio", "Symmetrical", "Ideal"]))
     d = {"side": draw(st.sampled_from(sides)), "neutral": neutral, "min": neutral - lo, "max": neutral + hi,
-         "step_percent": draw(q(0.25, 2.5, 2)) if ctype != "Ideal" else draw(st.sampled_from([0.0, 1.5])),
+         # build_branch rejects an ideal phase shifter with both step sizes set ("Both tap_step_degree and tap_step_percent set")
+         "step_percent": draw(q(0.25, 2.5, 2)) if ctype != "Ideal" else draw(st.sampled_from([0.0, 0])),
          "step_degree": draw(q(0.5, 3, 1)) if ctype == "Ideal" else draw(st.sampled_from([0, 0, 0.0, 1.5])),
          "changer_type": ctype}
     return {prefix + k: v for k, v in d.items()}
 
 
 @st.composite
-def trafo_type(draw):
+def trafo_type(draw, force=()):
     hv = draw(st.sampled_from([380.0, 220.0, 110.0, 110, 20.0, 10.0]))
     lv = draw(st.sampled_from([v for v in (110.0, 20.0, 10.0, 10.5, 0.4) if v < hv]))
     sn = draw(q(0.1, 1, 2)) if lv < 1 else draw(q(5, 200, 1))
@@ -123,7 +124,7 @@ def trafo_type(draw):
     d = {"sn_mva": sn, "vn_hv_kv": hv, "vn_lv_kv": lv, "vk_percent": vk, "vkr_percent": vkr, "pfe_kw": pfe,
          "i0_percent": i0, "shift_degree": draw(st.sampled_from([0, 0.0, 30, 150, 150.0, 180, -30, 330]))}
     vg = None
-    if draw(st.integers(0, 2)) == 0:
+    if draw(st.booleans()) or "zero" in force:
         d["vk0_percent"] = draw(q(3, 18, 2))
         d["vkr0_percent"] = draw(q(0, 1.5, 3))
         d["mag0_percent"] = draw(st.sampled_from([100.0, 10.0, 500.0]))
@@ -146,7 +147,7 @@ def trafo_type(draw):
 
 
 @st.composite
-def trafo3w_type(draw):
+def trafo3w_type(draw, force=()):
     hv, mv, lv = draw(st.sampled_from([(110.0, 20.0, 10.0), (110, 10, 10), (220.0, 110.0, 20.0), (380.0, 110.0, 10.0),
                                        (20.0, 10.0, 0.4)]))
     sh = draw(q(10, 200, 1)) if lv >= 1 else draw(q(0.4, 2, 2))
@@ -209,14 +210,14 @@ def _matching_old(el, data, builtins):
 
 
 @st.composite
-def args_for(draw, el, data):
+def args_for(draw, el, data, force=()):
     a = {}
     if el in ("line", "line_dc"):
         a["parallel"] = draw(st.sampled_from([1, 1, 2, 3]))
         a["df"] = draw(st.sampled_from([1.0, 1.0, 0.8]))
         a["length_f"] = draw(q(0.0, 1.0, 2))      # position in the length range of the voltage level
         a["max_loading_percent"] = draw(st.sampled_from([None, None, 80.0]))
-        a["temperature_degree_celsius"] = draw(st.sampled_from([None, 20.0, 55.0, 80.0]))
+        a["temperature_degree_celsius"] = draw(st.sampled_from([None, 20.0, 55.0, 80.0][1 if "alpha" in force else 0:]))
     elif el == "trafo":
         a["parallel"] = draw(st.sampled_from([1, 1, 2]))
         a["df"] = draw(st.sampled_from([1.0, 1.0, 0.9]))
@@ -247,13 +248,13 @@ def calc_for(draw, el):
                    "consider_line_temperature": draw(st.booleans())}
     if el != "line_dc" and k >= 3:
         c["sc"] = draw(st.sampled_from(["3ph", "1ph", "1ph"]))
-        c["sc_case"] = draw(st.sampled_from(["max", "max", "min"]))
+        c["sc_case"] = draw(st.sampled_from(["max", "min"]))
     return c
 
 
 @st.composite
 def case(draw, tier, builtins):
-    el = draw(st.sampled_from(["line", "line", "line_dc", "trafo", "trafo", "trafo", "trafo3w", "trafo3w", "fuse"]))
+    el = draw(st.sampled_from(["line", "line", "line", "line_dc", "trafo", "trafo", "trafo", "trafo3w", "fuse", "fuse"]))
     name = draw(st.sampled_from(NAMES))
     if draw(st.integers(0, 9)) == 0:
         name = draw(st.sampled_from(sorted(builtins[el])))      # overwrites a built-in type
@@ -263,20 +264,32 @@ def case(draw, tier, builtins):
         return {"el": el, "name": name, "data": data, "old": None, "pre": "none", "args": {}, "vn": 0.4,
                 "calc": {"pf": None, "sc": None, "sc_case": "max"},
                 "mgmt": {"new_name": new_name, "curve": draw(st.integers(0, 1))}}
-    data = draw(TYPE_STRATEGY[el]())
+    # the calculation is drawn first; in 3 of 4 cases the optional parameter groups it needs (zero-sequence data for
+    # 1ph, endtemp_degree for the min case, alpha for the line temperature) are forced into the type(s)
+    calc = draw(calc_for(el))
+    want = set()
+    if calc["sc"] == "1ph":
+        want.add("zero")
+    if calc["sc"] is not None and calc["sc_case"] == "min":
+        want.add("endtemp")
+    if calc["pf"] is not None and calc["pf"]["consider_line_temperature"]:
+        want.add("alpha")
+    force = tuple(sorted(want)) if draw(st.integers(0, 3)) > 0 else ()
+    data = draw(TYPE_STRATEGY[el](force))
     cand = [n for n in _matching_old(el, data, builtins) if n != name]
     if cand and draw(st.booleans()):
         old = {"name": draw(st.sampled_from(cand)), "data": None}
     else:
-        od = draw(TYPE_STRATEGY[el]())
+        od = draw(TYPE_STRATEGY[el](force))
         for k in REQUIRED[el]:
             if k.startswith("vn_"):
                 od[k] = data[k]
         old = {"name": draw(st.sampled_from([n for n in ("old type", "T0", "renamed2") if n not in (name, new_name)])),
                "data": od}
     vn = draw(st.sampled_from([0.4, 10.0, 20.0, 110.0])) if el == "line" else 110.0
-    return {"el": el, "name": name, "data": data, "old": old, "pre": draw(st.sampled_from(PRE)),
-            "args": draw(args_for(el, data)), "vn": vn, "calc": draw(calc_for(el)),
+    pre = draw(st.sampled_from(PRE + ("rich", "none") if force else PRE))
+    return {"el": el, "name": name, "data": data, "old": old, "pre": pre,
+            "args": draw(args_for(el, data, force)), "vn": vn, "calc": calc,
             "mgmt": {"new_name": new_name, "curve": 0}}
 
 
